@@ -374,6 +374,7 @@ package proxy
 
 //@ contract (*proxyStreamSender).sendReplicationMessages
 //@   props C02 C01 C04
+//@   wakeup shutdownChan.Channel()
 //@   ensures @latch_tripped: shutdownChan.tripped
 //@   requires s.lastTask >= 0 && s.lastHigh >= 0 && s.lastTask <= s.nextProxyTaskID && s.lastHigh <= s.nextProxyTaskID + 1
 //@   loop 1 invariant s.lastTask >= 0 && s.lastHigh >= 0 && s.lastTask <= s.nextProxyTaskID && s.lastHigh <= s.nextProxyTaskID + 1
@@ -410,6 +411,7 @@ package proxy
 
 //@ contract (*proxyStreamReceiver).sendAck
 //@   props C03 C01 C04
+//@   wakeup shutdownChan.Channel()
 //@   requires r.ackByTarget != nil && r.lastSentMin == r.lastSent && (r.lastSentAck != nil ==> ackOf(r.lastSentAck) == r.lastSent)
 //@   requires r.lastSentMin <= 0 || r.lastSentMin <= r.lastExclusiveHighOriginal
 //@   callpre Send.1: @bounded: lastExclusiveHighOriginal > 0 ==> ackOf($0) <= lastExclusiveHighOriginal
@@ -435,6 +437,7 @@ package proxy
 // exactly as many as the aggregation covered.
 //@ contract (*proxyStreamSender).recvAck
 //@   props C01 C04
+//@   wakeup shutdownChan.Channel()
 //@   ensures @latch_tripped: shutdownChan.tripped
 //@   requires s.prevAckBySource != nil && !fresh(s.prevAckBySource)
 //@   callpre DeliverAckToShardOwner.1: @forwards_aggregate: $0 in shardToAck && ackOf($1.Req) == shardToAck[$0] && $4 == shardToAck[$0]
@@ -486,6 +489,7 @@ package proxy
 // group's tasks (every one owned by that shard), an exclusive high watermark of last id + 1 and the batch priority.
 //@ contract (*proxyStreamReceiver).recvReplicationMessages
 //@   props C02 C01 C04
+//@   wakeup shutdownChan.Channel()
 //@   arith wrap
 //@   requires !(r.sourceShardID.ClusterID == 0 && r.sourceShardID.ShardID == 0) && r.ackByTarget != nil && !fresh(r.ackByTarget)
 //@   callpre DeliverMessagesToShardOwner.2: @to_owner: $0 == targetShardID && targetShardID in tasksByTargetShard &&
